@@ -11,7 +11,7 @@ import YaegiVerif.Generated.C07
               (fnHost) (hostIfaceVar INTERP) (hostIfaceNil) (hostDyn) (concreteDyn INTERP METHODS) (plain CLASS CLEAN)
       FORM  = const | other      (constants are converted to the parameter type callBin picks)
       PKIND = concrete | empty | host
-      ctx   = (assign B0 B1 …) | (ret POS) | (deflt) | (cond)
+      ctx   = (assign B0 B1 …) | (ret POS NOPERANDS READS) | (deflt) | (cond)
    pack PATH ISVARIADIC ELLIPSIS DEFERRED NFIXED NARGS   → y=<ok|bad:…> g=ok
       PATH = bin (callBin) | fv (`call`, the function value is a host function): what the callee's parameters receive
       against Go's packing (nil variadic slice without variadic arguments, the slice itself with `...`, also when deferred)
@@ -128,7 +128,7 @@ def showSlot : Slot → String
 def parseCtx (s : Sexp) : Option Ctx :=
   match s with
   | .list (.atom "assign" :: bs) => (bs.mapM Sexp.bool?).map Ctx.assignX
-  | .list [.atom "ret", p] => p.nat?.map Ctx.ret
+  | .list [.atom "ret", p, n, _] => (match p.nat?, n.nat? with | some p, some n => some (Ctx.ret p n) | _, _ => none)
   | .list [.atom "deflt"] => some (.deflt 5)
   | .list [.atom "cond"] => some (.cond 5)
   | _ => none
@@ -245,8 +245,14 @@ def handleIfaceRecv : String :=
     "y=bad:receiver-follows-variable g=ok"
   else "y=ok g=ok"
 
+/-- `(ret POS N READS)`: does another operand of the return statement read the result variable of the call's position? -/
+def ctxReads (s : Sexp) : Bool :=
+  match s with
+  | .list [.atom "ret", _, _, r] => r.bool?.getD false
+  | _ => false
+
 def handleCall (hasRecv recvIsIface recvInSig methodValue isVariadic ellipsis deferred : Bool) (params : List String) (velem : String)
-    (args : List ArgIn) (ctx : Ctx) (nOut : Nat) : String :=
+    (args : List ArgIn) (ctx : Ctx) (reads : Bool) (nOut : Nat) : String :=
   let nParams := params.length
   let numIn := nParams + (if recvInSig then 1 else 0)
   let nArgs := args.length
@@ -280,7 +286,16 @@ def handleCall (hasRecv recvIsIface recvInSig methodValue isVariadic ellipsis de
   -- routing
   let routeBad := if deferred then none else
     if routeY G ctx nOut == routeSpec ctx nOut then none else some "result-routing"
-  let y := firstBad (conv ++ defBad ++ prepBad ++ [packBad, routeBad])
+  -- a return statement with several operands: the other operands read the result variable the call's position stands for
+  let retBad := match ctx with
+    | .ret pos nOps =>
+      if nOps ≤ 1 then none else
+      let ops := (List.range nOps).map fun k =>
+        if k == pos then RetOperand.call (.int 99) else if reads then RetOperand.named pos else RetOperand.other (.int 7)
+      let init := (List.range nOps).map fun k => Rep.int (Int.ofNat k)
+      if retStmtY G.returnBase ops init == retStmtSpec ops init then none else some "return-operand-clobbered"
+    | _ => none
+  let y := firstBad (conv ++ defBad ++ prepBad ++ [packBad, routeBad, retBad])
   let reps := ",".intercalate (prepared.map fun (_, h, _) => repClass h)
   let ideals := ",".intercalate (args.map fun a => repClass (ideal a.sit a.pk))
   s!"y={y} reps={if reps.isEmpty then "-" else reps} off={off} g=ok ideal={if ideals.isEmpty then "-" else ideals}"
@@ -315,7 +330,7 @@ def handle (args : List Sexp) : String :=
     (match hr.bool?, ri.bool?, rs.bool?, mv.bool?, iv.bool?, el.bool?, df.bool?, ps.mapM Sexp.atom?, as.mapM parseArg, parseCtx ctx with
      | some hr, some ri, some rs, some mv, some iv, some el, some df, some ps, some as, some c =>
        (match nout.nat? with
-        | some n => handleCall hr ri rs mv iv el df ps ve as c n
+        | some n => handleCall hr ri rs mv iv el df ps ve as c (ctxReads ctx) n
         | none => "bad-op")
      | _, _, _, _, _, _, _, _, _, _ => "bad-op")
   | [.atom "pack", .atom path, iv, el, df, nf, na] =>
